@@ -19,6 +19,14 @@ Oracle (implementation only, straight from the property text):
   The oracle reports ONLY violations of the identities: a case whose evaluation at price 0 raises in every shape
   (or returns a wrongly sized gradient) is skipped here — that every accepted device is usable is C10's claim.
 
+  WindowDevice (inside the quantifier "every device", not modelled: `np.average(weights=r)` is outside the model language)
+  is built by this module itself as a leaf and as a child of a DeviceSet and goes through the ORACLE ONLY (no T2 op);
+  its flows are strictly positive (a zero flow sum is C10's listed corner).
+  Prices: ~6 % of the cases carry entries of magnitude 2^10..2^20 (1e3..1e6), ~2 % entries of magnitude 2^-20 (1e-6).
+  Equivalent scalar forms: a scalar price is also given as `np.float64` and as a 0-d ndarray (the forms numpy broadcasting
+  defines for a scalar), a per-slot vector also as a (1, n) row: "works at the float but raises / differs at the
+  equivalent form" is a `price-shape` failure.
+
 Obligations that are definitional (`rfl` / `simp` on the definition, listed for completeness, they carry no
 content beyond the model's definitions): hess_indep, cost_scalar_eq_mat, cost_vec_eq_mat, deriv_scalar_eq_mat,
 deriv_vec_eq_mat, cost_scalar_eq_vec, adevice_cost, adevice_deriv, device_deriv, cdevice_deriv.  See the header of
@@ -43,9 +51,16 @@ def nonzero(v):
 
 
 def gen_base_price(rng, R, n, allow_mat=True):
-  """a price in one of the accepted shapes, any sign, mostly non-zero."""
+  """a price in one of the accepted shapes, any sign, mostly non-zero; ~6 % of the prices have entries of magnitude
+  1e3..1e6 (runaway dual prices), ~2 % of magnitude 1e-6 (all dyadic: exact on both sides)."""
   q = rng.random()
-  val = lambda: fs(dy(rng, -3, 3, 3)) if rng.random() > 0.1 else '0'
+  m = rng.random()
+  def val():
+    if m < 0.06 and rng.random() < 0.6:
+      return fs(rng.choice([-1, 1])*rng.choice([1, 3, 5, 7])*Fraction(2**rng.randint(10, 20), 4))
+    if 0.06 <= m < 0.08 and rng.random() < 0.6:
+      return fs(rng.choice([-1, 1])*Fraction(rng.choice([1, 3, 5]), 2**20))
+    return fs(dy(rng, -3, 3, 3)) if rng.random() > 0.1 else '0'
   if q < 0.33:
     c = val()
     return c if c != '0' or rng.random() < 0.2 else '5/8'
@@ -80,7 +95,35 @@ def shapes_of(p, R, n):
 
 
 def tree_classes(t):
+  if t.get('k') == 'wset':
+    return sorted({'WindowDevice'} | {d['cls'] for d in t['others']})
   return sorted({b['dev']['cls'] for b in gen.tree_leaves(t)})
+
+
+def gen_window(rng, tier, n=None):
+  """WindowDevice description: a consumer with strictly positive lower bounds (every in-bounds flow has a non-zero sum)."""
+  n = n or rng.choice([2, 3, 4, 5, 6, 8])
+  lb = [dy(rng, Fraction(1, 4), 2) for _ in range(n)]
+  hb = [a + dy(rng, 0, 3) for a in lb]
+  return {'cls': 'WindowDevice', 'n': n, 'lb': [fs(x) for x in lb], 'hb': [fs(x) for x in hb], 'cbs': [],
+          'prm': {'w': fs(dy(rng, 0, n)), 'c': fs(dy(rng, Fraction(1, 4), 2))}, '_py': {'bform': 'table', 'cform': None}}
+
+
+def build_window(d, id='win'):
+  dk = C.repo()
+  N = np()
+  b = N.stack((N.array([C.pf(x) for x in d['lb']]), N.array([C.pf(x) for x in d['hb']])), axis=1)
+  return dk.WindowDevice(id, d['n'], b, C.pf(d['prm']['w']), None, c=C.pf(d['prm']['c']))
+
+
+def build_wset(t):
+  """DeviceSet('root', [ordinary leaves ..., WindowDevice at position `pos`, ...]), optionally one nesting level."""
+  dk = C.repo()
+  kids = [build.build_block_device(d, 'k%d' % i) for i, d in enumerate(t['others'])]
+  kids.insert(t['pos'], build_window(t['window']))
+  if t.get('nest') and len(kids) >= 2:
+    kids = [kids[0], dk.DeviceSet('sub', kids[1:])]
+  return dk.DeviceSet('root', kids)
 
 
 class C08(Prop):
@@ -114,7 +157,7 @@ class C08(Prop):
   rule = ('leaves of every shipped class (n 1..8 quick plus 5 % from {12,16,24,25,31,48}; ..60 thorough; 25 % of prices, interior flows and cost parameters are non-dyadic decimals; zero-width slots; scalar/vector parameters), random trees '
           '(depth <= 3, children with different row counts, MF / two-ratio adaptors as children) and bare MF adaptors x in-bounds flow x '
           'price of any sign in every accepted shape (scalar, per-slot vector, full matrix; every equivalent shape of the drawn price is '
-          'exercised). integer-typed integer-valued flows with fractional prices (20% of leaves are base Device/PVDevice of that kind); price updated in place between calls. non-trivial: some non-zero price entry and some non-zero flow entry (trees: >= 2 rows)')
+          'exercised, a scalar also as np.float64 / 0-d ndarray, a vector also as a (1, n) row); 6 % of the prices at magnitude 1e3..1e6, 2 % at 1e-6; 6 % WindowDevice (leaf / in a DeviceSet; oracle only). integer-typed integer-valued flows with fractional prices (20% of leaves are base Device/PVDevice of that kind); price updated in place between calls. non-trivial: some non-zero price entry and some non-zero flow entry (trees: >= 2 rows)')
   sizes = {'quick': 800, 'thorough': 12000}
   assumptions = ['hess_indep is true by definition of the model (no price argument); that the implementation ignores p is observed by T2/oracle',
                  'numpy broadcasting of the price is modelled (Price.toMat / jMat), not verified: T2 + oracle with the three shapes',
@@ -128,7 +171,9 @@ class C08(Prop):
     out = []
     for k in range(count):
       q = rng.random()
-      if q < 0.5:
+      if q < 0.06:
+        out.append(self.window_case(rng, tier))
+      elif q < 0.5:
         out.append(self.leaf_case(rng, tier))
       elif q < 0.85:
         out.append(self.tree_case(rng, tier))
@@ -175,6 +220,25 @@ class C08(Prop):
     case['dp'] = price_delta(rng, case['p'])
     return case
 
+  def window_case(self, rng, tier):
+    """WindowDevice alone or as a child of a (nested) DeviceSet: oracle only."""
+    if rng.random() < 0.5:
+      d = gen_window(rng, tier)
+      n = d['n']
+      case = {'kind': 'leaf', 'dev': d, 'n': n, 's': gen.leaf_flow(rng, d), 's0': gen.leaf_flow(rng, d, 'mixed'),
+              'p': gen_base_price(rng, 1, n), '_flat': rng.random() < 0.5, 'oracle_only': True}
+    else:
+      w = gen_window(rng, tier)
+      n = w['n']
+      others = [gen.gen_leaf(rng, tier, [rng.choice(['Device', 'CDevice', 'IDevice2', 'GDevice', 'PVDevice', 'IDevice'])], n=n) for _ in range(rng.randint(1, 2))]
+      t = {'k': 'wset', 'window': w, 'others': others, 'pos': rng.randint(0, len(others)), 'nest': rng.random() < 0.4}
+      order = list(others); order.insert(t['pos'], w)
+      R = len(order)
+      case = {'kind': 'tree', 'tree': t, 'n': n, 'S': [gen.leaf_flow(rng, d) for d in order], 'S0': [gen.leaf_flow(rng, d, 'mixed') for d in order],
+              'p': gen_base_price(rng, R, n), '_flat': rng.random() < 0.3, 'oracle_only': True}
+    case['dp'] = price_delta(rng, case['p'])
+    return case
+
   def mf_case(self, rng, tier):
     t, n = gen.gen_tree(rng, tier, depth=1, want_mf=True)
     mfs = [b for b in gen.tree_leaves(t) if b['k'] == 'mf']
@@ -187,7 +251,7 @@ class C08(Prop):
 
   # ------------------------------------------------------------------ python objects
   def _leaf(self, case):
-    dev = build.build_leaf(case['dev'])
+    dev = build_window(case['dev']) if case['dev']['cls'] == 'WindowDevice' else build.build_leaf(case['dev'])
     n = case['n']
     def flow(v):
       a = np().array(build.jf(v), dtype=int) if case.get('intflow') else build.arr(v)
@@ -195,8 +259,11 @@ class C08(Prop):
     return dev, flow
 
   def _tree(self, case):
-    dev = build.build_tree(case['tree'])
-    R, n = gen.tree_rows(case['tree']), case['n']
+    if case['tree'].get('k') == 'wset':
+      dev = build_wset(case['tree']); R = len(case['tree']['others']) + 1
+    else:
+      dev = build.build_tree(case['tree']); R = gen.tree_rows(case['tree'])
+    n = case['n']
     def flow(v):
       a = (np().array(build.jf(v), dtype=int) if case.get('intflow') else build.arr(v)).reshape(R, n)
       return a.reshape(-1) if case.get('_flat') else a
@@ -210,6 +277,9 @@ class C08(Prop):
       self.stats['intflow_cases'] += 1
       if case['kind'] == 'leaf' and case['dev']['cls'] in ('Device', 'PVDevice'):
         self.stats['intflow_base_device'] += 1
+    if case.get('oracle_only'):
+      self.stats['window'] = self.stats.get('window', 0) + 1
+      return []
     if case['kind'] == 'leaf':
       d = case['dev']
       dev, flow = self._leaf(case)
@@ -331,6 +401,26 @@ class C08(Prop):
         if h is not None and ref[3] is not None and (h.shape != ref[3].shape or not N.allclose(h, ref[3], rtol=1e-9, atol=1e-12, equal_nan=True)):
           fail('price-shape', 'hess with the %s price differs from the equivalent %s price' % (name, ref[0]))
 
+    # ---- equivalent forms of the drawn price that numpy broadcasting defines: np.float64 / 0-d array for a scalar,
+    #      a (1, n) row for a per-slot vector.  "works at the float, raises or differs at the equivalent form" = price-shape.
+    if ref is not None:
+      forms = []
+      if not isinstance(case['p'], list):
+        x = C.pf(case['p'])
+        forms = [('np.float64', N.float64(x)), ('0-d ndarray', N.array(x, dtype=float))]
+      elif not isinstance(case['p'][0], list):
+        forms = [('(1, n) row', N.array(build.jf(case['p']), dtype=float).reshape(1, n))]
+      for fname, fp in forms:
+        c, e = call(dev.cost, s, fp)
+        g, ge = call(dev.deriv, s, fp)
+        if e or ge:
+          fail('price-shape', 'cost/deriv work at the %s price %s but raise when the same price is given as %s: %s' % (ref[0], case['p'], fname, e or ge))
+          continue
+        if not abs(float(c) - ref[1]) <= 1e-9*max(1.0, abs(ref[1])):
+          fail('price-shape', 'cost with the price given as %s is %.12g, as %s %.12g (p=%s)' % (fname, float(c), ref[0], ref[1], case['p']))
+        if g.size != ref[2].size or not N.allclose(g.reshape(-1), ref[2], rtol=1e-9, atol=1e-12):
+          fail('price-shape', 'deriv with the price given as %s differs from the %s form (p=%s)' % (fname, ref[0], case['p']))
+
     # ---- the caller updates its price array in place between two calls (same ndarray object)
     if 'dp' in case and not out:
       pa = N.array(build.jf(case['p']), dtype=float)            # 0-d array for a scalar price
@@ -360,7 +450,7 @@ class C08(Prop):
       return False
     if case['kind'] == 'leaf':
       return nonzero(case['s'])
-    return nonzero(case['S']) and gen.tree_rows(case['tree']) >= 2
+    return nonzero(case['S']) and len(case['S']) >= 2
 
   def extra_evidence(self):
     return {'c08_inputs': self.stats}
